@@ -776,6 +776,34 @@ func (x *Exec) builtin(name string, in *ssa.Call, args []AV, fr *frame, h *Heap)
 		fr.vals[in] = out
 	case "append":
 		base := args[0]
+		if x.cli && base.tag != "" && len(args) > 1 {
+			// bytes appended to tagged data (the command's output buffer): the tag
+			// becomes the concatenation, constant bytes as quoted text
+			defer func() {
+				e := args[1]
+				suffix := "UNKNOWN(appended data)"
+				if e.tag != "" {
+					suffix = e.tag
+				} else if e.obj != 0 && h.objs[e.obj] != nil && h.objs[e.obj].kind == 'l' {
+					txt := ""
+					okc := true
+					for _, el := range h.objs[e.obj].elems {
+						if el.k == 'N' && el.nk && el.n >= 0 && el.n < 128 {
+							txt += string(rune(el.n))
+						} else {
+							okc = false
+						}
+					}
+					if okc {
+						suffix = fmt.Sprintf("%q", txt)
+					}
+				}
+				if v, ok := fr.vals[in]; ok {
+					v.tag = base.tag + "\x1f" + suffix
+					fr.vals[in] = v
+				}
+			}()
+		}
 		var add AV
 		var addN int
 		addKnown := false
